@@ -209,8 +209,8 @@ func keys(m map[string]M) []string {
 	return out
 }
 
-var bodyFields = []string{"N", "S", "On", "L"}
-var formFields = []string{"A", "N", "L", "D"}
+var bodyFields = []string{"N", "S", "On", "L", "Dn"}
+var formFields = []string{"A", "N", "L", "D", "Dn"}
 
 func emit(r *core.Run, mode string, into any) error {
 	ls, err := obs.Emit(r, "ExchangeEmit", tlc.Cfg(`CONSTANT Mode = "`+mode+`"`, "INIT Init", "NEXT Next"), 10*time.Minute)
@@ -495,6 +495,9 @@ func Prepare(r *core.Run, extra, race bool) (*Prepared, error) {
 		M{"name": "X-H", "in": "header", "required": true, "schema": M{"type": "string"}},
 		M{"name": "q", "in": "query", "required": false, "schema": M{"type": "array", "items": M{"type": "string"}}}},
 		"requestBody": M{"required": true, "content": jsonOf("NMsg")}, "responses": M{"200": M{"description": "ok", "content": jsonOf("NMsg")}}}}}
+	// text/plain bodies of format byte: streamed through a base64 encoder / decoder
+	b64 := M{"text/plain": M{"schema": M{"type": "string", "format": "byte"}}}
+	paths["/b64"] = M{"post": M{"operationId": "b64", "requestBody": M{"required": true, "content": b64}, "responses": M{"200": M{"description": "ok", "content": b64}}}}
 	if extra {
 		paths["/vbody"] = M{"post": M{"operationId": "vbody", "requestBody": M{"required": true, "content": jsonOf("VBody")}, "responses": M{"200": M{"description": "ok", "content": jsonOf("VBody")}}}}
 	}
@@ -503,11 +506,14 @@ func Prepare(r *core.Run, extra, race bool) (*Prepared, error) {
 	}
 	doc, _ := json.Marshal(M{"openapi": "3.1.0", "info": M{"title": "t", "version": "1"}, "paths": paths, "webhooks": webhooks, "components": M{"schemas": M{
 		"NMsg": msg(), "E404": msg(), "F4": msg(),
-		"Body": M{"type": "object", "required": []string{"n"}, "properties": orderedProps{{"n", M{"type": "integer"}}, {"s", M{"type": "string", "default": "sd"}},
-			{"on", M{"type": "string", "nullable": true}}, {"l", M{"type": "array", "items": M{"type": "integer"}}}}},
+		"Body": M{"type": "object", "required": []string{"n", "dn"}, "properties": orderedProps{{"n", M{"type": "integer"}}, {"s", M{"type": "string", "default": "sd"}},
+			{"on", M{"type": "string", "nullable": true}}, {"l", M{"type": "array", "items": M{"type": "integer"}}},
+			// required, nullable, null by default: the decoder starts from the default
+			{"dn", M{"type": "string", "nullable": true, "default": nil}}}},
 		"R200": msg(), "E4": msg(), "ED": msg(),
 		"Form": M{"type": "object", "required": []string{"a"}, "properties": orderedProps{{"a", M{"type": "string"}}, {"n", M{"type": "integer"}},
-			{"l", M{"type": "array", "items": M{"type": "string"}}}, {"d", M{"type": "string", "default": "fd"}}}},
+			{"l", M{"type": "array", "items": M{"type": "string"}}}, {"d", M{"type": "string", "default": "fd"}},
+			{"dn", M{"type": "string", "nullable": true, "default": nil}}}},
 		"VBody": M{"type": "object", "required": []string{"p", "m"}, "properties": orderedProps{{"p", M{"type": "string", "pattern": "^[a-z]+$"}}, {"m", M{"type": "number", "multipleOf": 0.5}},
 			{"q", M{"type": "string", "pattern": "^(a|b)+c$", "maxLength": 40}},
 			// patterns the RE2 converter has to hand to the backtracking engine
@@ -592,7 +598,7 @@ func Prepare(r *core.Run, extra, race bool) (*Prepared, error) {
 	}
 	// the same bodies while a second call goes through the same client between "request built"
 	// and "request sent" (made by the transport): what the first call delivers must not change
-	innerBody := M{"t": "obj", "m": []any{M{"t": "int", "n": 9}, strOf("zz"), strOf("q"), M{"t": "arr", "v": []any{M{"t": "int", "n": 8}, M{"t": "int", "n": 7}}}}}
+	innerBody := M{"t": "obj", "m": []any{M{"t": "int", "n": 9}, strOf("zz"), strOf("q"), M{"t": "arr", "v": []any{M{"t": "int", "n": 8}, M{"t": "int", "n": 7}}}, strOf("w")}}
 	for _, b := range bodies {
 		inner := dcall{Method: "Body", HasReq: true, Req: toGo(innerBody, bodyFields), Keys: [][]string{}}
 		calls = append(calls, dcall{Method: "Body", HasReq: true, Req: toGo(b.B, bodyFields), Keys: [][]string{}, Nested: &inner})
@@ -634,6 +640,11 @@ func Prepare(r *core.Run, extra, race bool) (*Prepared, error) {
 			calls = append(calls, dcall{Method: "Vbody", HasReq: true, Req: v, Keys: [][]string{}, Resp: &dresp{"VBody", vb("ok", 5, absent)}})
 			metas = append(metas, meta{kind: "extra", vary: -1})
 		}
+	}
+	for _, data := range []string{"x", "xy", "xyz", "wxyz", "\x00\xff\r\n binary \x80", strings.Repeat("b64-", 3000) + "q"} {
+		calls = append(calls, dcall{Method: "B64", HasReq: true, Req: M{"t": "objn", "m": []any{[]any{"Data", strOf(data)}}}, Keys: [][]string{},
+			Resp: &dresp{"B64OK", M{"t": "objn", "m": []any{[]any{"Data", strOf("r:" + data)}}}}})
+		metas = append(metas, meta{kind: "stream", vary: -1, sent: strOf(data), resp: strOf("r:" + data)})
 	}
 	for _, data := range []string{"", "x", "\x00\xff\r\n binary \x80", strings.Repeat("stream-", 3000)} {
 		calls = append(calls, dcall{Method: "Stream", HasReq: true, Req: M{"t": "objn", "m": []any{[]any{"Data", strOf(data)}}}, Keys: [][]string{},
@@ -858,6 +869,15 @@ func Check(r *core.Run) error {
 				}
 				if mwgot, err = fromGo(res.MwBody, formFields); err != nil {
 					return fmt.Errorf("%w: middleware form: %v", tlc.ErrInfra, err)
+				}
+			}
+			// the member dn (nullable, `default: null`): when it was not given, null and absent are
+			// the same "no value"
+			if sm, ok := mt.sent["m"].([]any); ok && len(sm) == 5 && sm[4].(M)["t"] == "absent" {
+				for _, g := range []M{got, mwgot} {
+					if gm, ok := g["m"].([]any); ok && len(gm) == 5 && gm[4].(M)["t"] == "null" {
+						gm[4] = absent
+					}
 				}
 			}
 			line = M{"kind": "form", "sent": mt.sent, "outcome": res.Outcome, "got": got, "mwgot": mwgot}
